@@ -30,13 +30,10 @@ import time
 from tools.vlib import coqrun, repoenv
 
 IMPORTS = ("From Coq Require Import ZArith List Bool.\n"
-           "From IPV8V Require Import lib.PyErr lib.Bytes model.M12_network.\n"
+           "From IPV8V Require Import lib.PyErr lib.Bytes model.M02_wire model.M12_network.\n"
            "Import ListNotations.\nOpen Scope Z_scope.\n")
-PREAMBLE = ("Definition ipp (a : addr) := match a with A4 i p => (i, p) | A6 i p => (i, p) end.\n"
-            "Definition m0 := mkAm None None.\n"
-            "Definition m4 a := mkAm (Some (ipp a)) None.\n"
-            "Definition m6 a := mkAm None (Some (ipp a)).\n"
-            "Definition m46 a b := mkAm (Some (ipp a)) (Some (ipp b)).\n"
+PREAMBLE = ("Definition m0 := mkAm None None None.\n"
+            "Definition S := @Some addr.\nDefinition N := @None addr.\nDefinition mk := mkAm.\n"
             "Definition AV := AddVerified.\nDefinition DA := DiscoverAddress.\nDefinition DS := DiscoverServices.\n"
             "Definition RP := RemovePeer.\nDefinition RA := RemoveByAddress.\nDefinition GK := GetByKey.\n"
             "Definition GA := GetByAddress.\nDefinition GP := GetPeersForService.\nDefinition GS := GetServicesForPeer.\n"
@@ -73,52 +70,92 @@ def svc_of_bytes(b):
     return b[0]
 
 
+# model address = (4, ip as int, port) | (6, ip as int, port) | (0, host name as str, port)
 def addr_py(a):
-    from ipv8.messaging.interfaces.udp.endpoint import UDPv4Address, UDPv6Address
+    from ipv8.messaging.interfaces.udp.endpoint import DomainAddress, UDPv4Address, UDPv6Address
     fam, ip, port = a
     if fam == 4:
         return UDPv4Address(socket.inet_ntop(socket.AF_INET, ip.to_bytes(4, "big")), port)
-    return UDPv6Address(socket.inet_ntop(socket.AF_INET6, ip.to_bytes(16, "big")), port)
+    if fam == 6:
+        return UDPv6Address(socket.inet_ntop(socket.AF_INET6, ip.to_bytes(16, "big")), port)
+    return DomainAddress(ip, port)
 
 
 def addr_of_py(x):
     """address object seen inside the implementation -> model address"""
-    from ipv8.messaging.interfaces.udp.endpoint import UDPv4Address, UDPv6Address
+    from ipv8.messaging.interfaces.udp.endpoint import DomainAddress, UDPv4Address, UDPv6Address
     if isinstance(x, UDPv4Address):
         return (4, int.from_bytes(socket.inet_pton(socket.AF_INET, x[0]), "big"), x[1])
     if isinstance(x, UDPv6Address):
         return (6, int.from_bytes(socket.inet_pton(socket.AF_INET6, x[0]), "big"), x[1])
+    if isinstance(x, DomainAddress):
+        return (0, x[0], x[1])
     raise RuntimeError("address class outside the model: %r" % (x,))
 
 
+def addr_bytes(a):
+    """the address bytes / UTF-8 host name the wire model keeps"""
+    fam, ip, _ = a
+    return ip.to_bytes(4, "big") if fam == 4 else ip.to_bytes(16, "big") if fam == 6 else ip.encode()
+
+
 def addr_code(a):
-    fam, ip, port = a
-    return 2 * (ip * 65536 + port) + (1 if fam == 6 else 0)
+    return 4 * (int.from_bytes(b"\x01" + addr_bytes(a), "big") * 65536 + a[2]) + {4: 1, 6: 2, 0: 3}[a[0]]
 
 
 def pack_addr(a):
-    fam, ip, port = a
-    return (b"\x01" + ip.to_bytes(4, "big") if fam == 4 else b"\x03" + ip.to_bytes(16, "big")) + port.to_bytes(2, "big")
+    """the documented `address` record (independent of the implementation's packer)"""
+    fam, _, port = a
+    b = addr_bytes(a)
+    if fam == 0:
+        return b"\x02" + len(b).to_bytes(2, "big") + b + port.to_bytes(2, "big")
+    return (b"\x01" if fam == 4 else b"\x03") + b + port.to_bytes(2, "big")
+
+
+def parse_records(b):
+    """the records at the front of a byte string, up to the first one that is incomplete or malformed:
+    -> (list of (address, record bytes), rest).  Independent of the implementation's parser."""
+    out, i = [], 0
+    while i < len(b):
+        t = b[i]
+        if t in (1, 3):
+            n = 7 if t == 1 else 19
+            if i + n > len(b):
+                break
+            a = (4 if t == 1 else 6, int.from_bytes(b[i + 1:i + n - 2], "big"), int.from_bytes(b[i + n - 2:i + n], "big"))
+        elif t == 2:
+            if i + 3 > len(b):
+                break
+            ln = int.from_bytes(b[i + 1:i + 3], "big")
+            n = 5 + ln
+            if i + n > len(b):
+                break
+            try:
+                host = bytes(b[i + 3:i + 3 + ln]).decode("utf-8")
+            except UnicodeDecodeError:
+                break
+            a = (0, host, int.from_bytes(b[i + n - 2:i + n], "big"))
+        else:
+            break
+        out.append((a, bytes(b[i:i + n])))
+        i += n
+    return out, bytes(b[i:])
 
 
 def am_list(am):
-    """am = (a4 or None, a6 or None) with a4 = (ip, port)"""
+    """am = (a4, a6, host) (older witnesses: (a4, a6)), each None or (ip / host, port)"""
     out = []
-    if am[0] is not None:
-        out.append((4, am[0][0], am[0][1]))
-    if am[1] is not None:
-        out.append((6, am[1][0], am[1][1]))
+    for fam, x in zip((4, 6, 0), am):
+        if x is not None:
+            out.append((fam, x[0], x[1]))
     return out
 
 
 def am_of(*addrs):
-    a4 = a6 = None
+    slot = {4: None, 6: None, 0: None}
     for fam, ip, port in addrs:
-        if fam == 4:
-            a4 = (ip, port)
-        else:
-            a6 = (ip, port)
-    return (a4, a6)
+        slot[fam] = (ip, port)
+    return (slot[4], slot[6], slot[0])
 
 
 # ------------------------------------------------------------------------------------ implementation
@@ -203,7 +240,12 @@ class Impl:
             r = n.get_introductions_from(self.peer(op[1], (None, None), store=False))
             return ("addrs", [addr_of_py(a) for a in list(r)]), op
         if k == "snapshot":
-            return ("records", split_records(n.snapshot())), op
+            try:
+                return ("records", split_records(n.snapshot())), op
+            except RuntimeError:
+                raise
+            except Exception:   # noqa   (an address the packer refuses: the model raises as well)
+                return ("raise",), op
         if k == "load":
             n.load_snapshot(op[1])
             return ("unit",), op
@@ -285,32 +327,22 @@ def ref_step(im, op, verified_before):
     elif k == "rm_addr":
         book.pop(op[1], None)
     elif k == "load":
-        b, i = op[1], 0
-        while i < len(b):
-            n = {1: 7, 3: 19}.get(b[i])
-            if n is None or i + n > len(b):
-                break
-            book[(4 if b[i] == 1 else 6, int.from_bytes(b[i + 1:i + n - 2], "big"), int.from_bytes(b[i + n - 2:i + n], "big"))] = \
-                (None, None, False)
-            i += n
+        for a, _ in parse_records(op[1])[0]:
+            book[a] = (None, None, False)
 
 
 def split_records(b):
     """snapshot bytes -> list of address records (independent of the implementation's parser)"""
-    out, i = [], 0
-    while i < len(b):
-        n = {1: 7, 3: 19}.get(b[i])
-        if n is None or i + n > len(b):
-            raise RuntimeError("snapshot() produced bytes outside the modelled codec: %s" % b.hex())
-        out.append(bytes(b[i:i + n]))
-        i += n
-    return out
+    recs, rest = parse_records(b)
+    if rest:
+        raise RuntimeError("snapshot() produced bytes that are not a sequence of address records: %s" % bytes(b).hex())
+    return [r for _, r in recs]
 
 
 # ------------------------------------------------------------------------------------ alpha + hash
 def obj_code(im, i):
     k, am = im.obj(i)
-    return [i, k, addr_code((4,) + am[0]) if am[0] else -1, addr_code((6,) + am[1]) if am[1] else -1]
+    return [i, k] + [addr_code((fam,) + x) if x else -1 for fam, x in zip((4, 6, 0), am)]
 
 
 def flat_ret(im, r):
@@ -325,6 +357,8 @@ def flat_ret(im, r):
         return [3, len(r[1])] + sorted(addr_code(a) for a in r[1])
     if t == "svcs":
         return [4, len(r[1])] + sorted(r[1])
+    if t == "raise":
+        return [6]
     return [5, len(r[1])] + sorted(int.from_bytes(b"\x01" + x, "big") for x in r[1])
 
 
@@ -392,14 +426,14 @@ def cz(n):
 
 
 def am_coq(am):
-    a4, a6 = am
-    if a4 is None and a6 is None:
+    ads = {a[0]: a for a in am_list(am)}
+    if not ads:
         return "m0"
-    if a6 is None:
-        return "(m4 %s)" % addr_coq((4,) + a4)
-    if a4 is None:
-        return "(m6 %s)" % addr_coq((6,) + a6)
-    return "(m46 %s %s)" % (addr_coq((4,) + a4), addr_coq((6,) + a6))
+    return "(mk %s %s %s)" % tuple("(S %s)" % addr_coq(ads[f]) if f in ads else "N" for f in (4, 6, 0))
+
+
+def addr_lit(a):
+    return "%s %s %d" % ({4: "A4", 6: "A6", 0: "ADom"}[a[0]], coqrun.zl(addr_bytes(a)), a[2])
 
 
 _NAMES = None     # while a case is rendered: address -> let-bound name
@@ -410,7 +444,7 @@ def addr_coq(a):
         if a not in _NAMES:
             _NAMES[a] = "a%d" % len(_NAMES)
         return _NAMES[a]
-    return "(A%d %d %d)" % a
+    return "(%s)" % addr_lit(a)
 
 
 def opt_coq(x):
@@ -457,7 +491,7 @@ def case_coq(cfg, path, fan):
         body = "(%s, %s, %s, [%s], [%s], [%s], [%s])" % (
             cz(caps[0]), cz(caps[1]), cz(caps[2]), ";".join(addr_coq(a) for a in bla), ";".join(str(k) for k in blm),
             "; ".join(op_coq(o) for o in path), "; ".join(op_coq(o) for o in fan))
-        lets = "".join("let %s := A%d %d %d in " % ((n,) + a) for a, n in _NAMES.items())
+        lets = "".join("let %s := %s in " % (n, addr_lit(a)) for a, n in _NAMES.items())
     finally:
         _NAMES = None
     return "(%s%s)" % (lets, body)
@@ -505,13 +539,14 @@ class Auth:
         return {a for a, w in self.addresses.items() if w.introduced_by == kb}
 
     def preferred(self):
-        """verified peers' preferred (IPv6 before IPv4) addresses, without the null address"""
-        from ipv8.messaging.interfaces.udp.endpoint import UDPv4Address, UDPv6Address
+        """verified peers' preferred (IPv6 before IPv4 before host name) addresses, without the null address"""
+        from ipv8.messaging.interfaces.udp.endpoint import DomainAddress, UDPv4Address, UDPv6Address
         out = set()
         for _, ads in self.verified.values():
             v6 = [a for a in ads if isinstance(a, UDPv6Address)]
             v4 = [a for a in ads if isinstance(a, UDPv4Address)]
-            pick = v6[0] if v6 else v4[0] if v4 else None
+            dom = [a for a in ads if isinstance(a, DomainAddress)]
+            pick = v6[0] if v6 else v4[0] if v4 else dom[0] if dom else None
             if pick is not None and tuple(pick) != ("0.0.0.0", 0):
                 out.add(pick)
         return out
@@ -728,10 +763,16 @@ def step_hash(im, h, r):
 
 
 # ------------------------------------------------------------------------------------ generators
-def universe(r, null=False):
-    """3 keys, 3 addresses (two IPv4, one IPv6), 2 services"""
+def host_addr(r):
+    """a host-name address (never an IP literal: Python compares address tuples by value)"""
+    name = r.choice(["h%d.example" % r.randrange(100), "node-%d" % r.randrange(10), "b\u00fccher.example", "x", "\u6f22.test"])
+    return (0, name, r.randrange(1, 65536))
+
+
+def universe(r, null=False, host=False):
+    """3 keys, 3 addresses (two IPv4 - or the null address / a host name instead -, one IPv6), 2 services"""
     a0 = (4, 0, 0) if null else (4, r.getrandbits(32) | 1, r.randrange(1, 65536))
-    a1 = (4, r.getrandbits(32) | 2, r.randrange(1, 65536))
+    a1 = host_addr(r) if host else (4, r.getrandbits(32) | 2, r.randrange(1, 65536))
     a2 = (6, r.getrandbits(128) | (1 << 120), r.randrange(1, 65536))
     return ([1, 2, 3], [a0, a1, a2], [1, 2])
 
@@ -847,9 +888,11 @@ def gen_random_ops(r, U, n, extra_addrs):
         x = r.random()
         if x < 0.12:
             return (None, None)
-        if x < 0.8:
+        if x < 0.75:
             return am_of(r.choice(pool))
-        return am_of(r.choice(pool), r.choice(pool))
+        if x < 0.93:
+            return am_of(r.choice(pool), r.choice(pool))
+        return am_of(r.choice(pool), r.choice(pool), r.choice(pool))
     ops = []
     kinds = ["add", "disc_addr", "disc_svc", "rm_peer", "rm_addr", "by_key", "by_addr", "peers_for", "svcs_for",
              "walkable", "intros", "snapshot", "load"]
@@ -889,7 +932,12 @@ def gen_random_ops(r, U, n, extra_addrs):
             ops.append(("snapshot",))
         else:
             recs = [pack_addr(r.choice(pool)) for _ in range(r.choice([0, 1, 2, 3]))]
-            tail = r.choice([b"", b"", b"\x01\x02\x03", b"\x03" + bytes(9), b"\x07", b"\x00abc", b"\x01" + bytes(5)])
+            tail = r.choice([b"", b"", b"\x01\x02\x03", b"\x03" + bytes(9), b"\x07", b"\x00abc", b"\x01" + bytes(5),
+                             b"\x02", b"\x02\x00", b"\x02\x00\x05ab", b"\x02\x00\x02hi\x00", b"\x02\x00\x02\xc3\x28\x00\x01",
+                             b"\x02\xff\xffhost\x00\x01", b"\x02\x00\x00\x00"])
+            if recs and r.random() < 0.3:      # cut inside the last record
+                cut = r.randrange(1, len(recs[-1]))
+                recs, tail = recs[:-1], recs[-1][:cut]
             ops.append(("load", b"".join(recs) + tail))
     return ops[:n]
 
@@ -900,9 +948,11 @@ def run_random_case(args):
     from tools.vlib import prng
     r = prng.stream(seed, "C12/random/%d" % idx)
     nk = r.choice([3, 3, 4, 6])
-    U = universe(r, null=r.random() < 0.2)
+    U = universe(r, null=r.random() < 0.2, host=r.random() < 0.3)
     U = (list(range(1, nk + 1)), U[1], U[2] + ([3] if r.random() < 0.3 else []))
     extra = [(4, r.getrandbits(32) | 4, r.randrange(1, 65536)) for _ in range(r.choice([0, 0, 1, 3]))]
+    extra += [host_addr(r) for _ in range(r.choice([0, 0, 1, 2]))]
+    extra = [a for i, a in enumerate(extra) if a not in U[1] and a not in extra[:i]]
     caps = r.choice([(500, 500, 500), (2, 2, 2), (1, 1, 1), (2, 1, 1), (3, 2, 1), (0, 0, 0)])
     bla = [r.choice(U[1] + extra)] if r.random() < 0.35 else []
     blm = [r.choice(U[0])] if r.random() < 0.25 else []
@@ -980,11 +1030,8 @@ def universe_of(cfg, ops):
         if k == "disc_svc":
             svs.update(op[3])
         if k == "load":
-            try:
-                for rec in split_records(op[1]):
-                    add_a((4 if rec[0] == 1 else 6, int.from_bytes(rec[1:-2], "big"), int.from_bytes(rec[-2:], "big")))
-            except RuntimeError:
-                pass
+            for a, _ in parse_records(op[1])[0]:
+                add_a(a)
     return (sorted(ks), ads, sorted(svs))
 
 
@@ -1062,17 +1109,20 @@ def run(ctx):
     # ---- stage P
     t0 = time.time()
     ctx.proofs()
+    ctx.proofs(part="C12x")      # snapshots over the C02 `address` packer, all address families
     timing["proofs"] = round(time.time() - t0, 1)
     t0 = time.time()
     ctx.coverage["trusted_base"] = [
         "Coq 8.16.1 kernel (coqc, vm_compute); no axioms (Print Assumptions: closed)",
-        "hand model coq/model/M12_network.v of Network / Peer.addresses, tied by this run's correspondence "
+        "hand model coq/model/M12_network.v of Network / Peer.addresses (snapshot codec = model/M02_wire's `address` packer, "
+        "itself tied to serialization.py by check C02), tied by this run's correspondence "
         "(chained 61-bit hash of return value and full abstracted state after every operation)",
         "harness abstraction (tools/checks/c12.py: Impl, flat_net) and generators",
     ]
     ctx.assumptions = [
         "every Peer argument is a fresh object not mutated by the caller afterwards",
-        "addresses are UDPv4Address / UDPv6Address in inet_ntop form (no host names, no plain tuples)",
+        "addresses are UDPv4Address / UDPv6Address in inet_ntop form or DomainAddress whose host is not an IP literal "
+        "(no plain tuples)",
         "mid (sha1 of the key) identified with the key; blacklists fixed before the first operation",
         "graph_lock / thread safety not modelled",
     ]
@@ -1080,9 +1130,9 @@ def run(ctx):
     # ---- stage C (a): exhaustive exploration
     r = ctx.rng("universe")
     U = universe(r)
-    Unull = (U[0], [(4, 0, 0)] + U[1][1:], U[2])
+    Unull = (U[0], [(4, 0, 0), host_addr(r), U[1][2]], U[2])      # null address, a host name, IPv6
     cfg_default = ((500, 500, 500), [], [])
-    cfg_tight = ((1, 1, 1), [U[1][1]], [3])            # minimal caps, blacklisted address and mid, null address
+    cfg_tight = ((1, 1, 1), [Unull[1][2]], [3])     # minimal caps, a blacklisted address and mid
     if ctx.quick:
         d_full, d_small = 3, 4
         plans = [(cfg_default, U, 3, 1), (cfg_tight, Unull, 3, 1),
